@@ -99,8 +99,13 @@ Finish(c, res, val, txn) ==
   /\ pc' = [pc EXCEPT ![c] = "idle"]
   /\ opi' = [opi EXCEPT ![c] = @ + 1]
 
+\* What Queue.ReadHead returns: the HEAD object is only a hint, ReadHead probes for the entries
+\* behind it (Exists on the next slots), so it sees every entry created so far.  (Under the
+\* storage gate the probes run in the same scheduling step as the HEAD read.)
+Seen == Len(entries)
+
 \* what ReadHead + reload leaves in the client's cache
-Reload(c) == IF head # at[c] THEN [at |-> head, tbl |-> Table(head)] ELSE [at |-> at[c], tbl |-> tbl[c]]
+Reload(c) == IF Seen # at[c] THEN [at |-> Seen, tbl |-> Table(Seen)] ELSE [at |-> at[c], tbl |-> tbl[c]]
 
 KeyOfId(t, id) == IF \E k \in DOMAIN t : t[k] = id THEN CHOOSE k \in DOMAIN t : t[k] = id ELSE "none"
 
@@ -129,7 +134,7 @@ RHPre(c) ==
                  [] op.k = "insert" -> IF Has(t, op.key) THEN "exists" ELSE "ok"
                  [] op.k \in {"rename", "rmid"} -> IF KeyOfId(t, op.id) = "none" THEN "notfound" ELSE "ok" IN
      /\ at' = [at EXCEPT ![c] = r.at] /\ tbl' = [tbl EXCEPT ![c] = t]
-     /\ Sched(c, "rh", head, "")
+     /\ Sched(c, "rh", Seen, "")
      /\ UNCHANGED <<entries, tabs, head, cobjs, fresh, crashes>>
      /\ IF ex # "ok"
         THEN Finish(c, ex, -1, -1) /\ loc' = [loc EXCEPT ![c] = l0]
@@ -147,7 +152,7 @@ RH0(c) ==
   /\ LET r == Reload(c)  t == r.tbl  op == CurOp(c)
          l0 == IF pc[c] = "idle" THEN [NoLoc EXCEPT !.t0 = Len(sched) + 1] ELSE loc[c] IN
      /\ at' = [at EXCEPT ![c] = r.at] /\ tbl' = [tbl EXCEPT ![c] = t]
-     /\ Sched(c, "rh", head, "")
+     /\ Sched(c, "rh", Seen, "")
      /\ UNCHANGED <<entries, tabs, head, cobjs, crashes>>
      /\ CASE op.k \in {"tip", "load"} ->
                IF ~Has(t, op.key)
@@ -183,7 +188,7 @@ RHOpen(c) ==
   /\ pc[c] = "idle" /\ HasOp(c) /\ CurOp(c).k = "load" /\ CanRun(c)
   /\ LET r == Reload(c)  t == r.tbl  l0 == [NoLoc EXCEPT !.t0 = Len(sched) + 1] IN
      /\ at' = [at EXCEPT ![c] = r.at] /\ tbl' = [tbl EXCEPT ![c] = t]
-     /\ Sched(c, "rh", head, "")
+     /\ Sched(c, "rh", Seen, "")
      /\ loc' = [loc EXCEPT ![c] = l0]
      /\ UNCHANGED <<entries, tabs, head, cobjs, fresh, crashes>>
      /\ IF ~Has(t, CurOp(c).key) THEN Finish(c, "notfound", -1, -1)
@@ -215,7 +220,7 @@ RH1(c) ==
   /\ pc[c] = "rh1" /\ CanRun(c)
   /\ LET r == Reload(c)  t == r.tbl  chk == Constraint(t, loc[c].pend) IN
      /\ at' = [at EXCEPT ![c] = r.at] /\ tbl' = [tbl EXCEPT ![c] = t]
-     /\ Sched(c, "rh", head, "")
+     /\ Sched(c, "rh", Seen, "")
      /\ UNCHANGED <<entries, tabs, head, cobjs, fresh, crashes>>
      /\ IF chk = "ok" THEN pc' = [pc EXCEPT ![c] = "cas"] /\ UNCHANGED <<loc, opi, resp>>
         ELSE IF CurOp(c).k \in {"tip", "load"} THEN ToRmc(c, chk = "constraint", chk)
@@ -294,9 +299,11 @@ Done == \A c \in Clients : pc[c] = "dead" \/ (pc[c] = "idle" /\ ~HasOp(c))
 TypeOK == /\ head \in 0..Len(entries) /\ Len(tabs) = Len(entries) + 1
           /\ \A c \in Clients : at[c] \in -1..Len(entries)
 
-\* HEAD is a hint that lags by at most one entry, and only while a live client is about to write it.
-HeadHint == Len(entries) <= head + 1
-NotStuck == (Len(entries) = head + 1) => \E c \in Clients : pc[c] = "wh"
+\* The HEAD object is a hint that never runs ahead of the entries.  It may lag (a writer stalled or
+\* died between its entry and its HEAD write; a stalled winner may even write an older value over
+\* a newer one), which is harmless because readers probe: what they see is never behind an entry.
+HeadHint == head <= Len(entries)
+NotStuck == \A c \in Clients : at[c] <= Seen
 
 \* Every entry was legal with respect to the table just before it: this is linearizability
 \* of the updates (the linearization point is the creation of the entry).
